@@ -135,8 +135,11 @@ def run(ctx):
         for n in filt)
     (ctx.judge('R1', 'create_dependency_items:disable-filter') if ok else
      ctx.violation('R1', 'create_dependency_items:disable-filter', cdi.where, 'disabled dependencies are not filtered out'))
-    ok = X.has(src, 'ignore = [*self.disable, *self.block]') and X.has(src, 'ignore=ignore')
-    (ctx.judge('R1', 'create_dependency_items:ignore-list') if ok else
+    ctx.wired('R1', 'create_dependency_items:ignore-list', cdi.where, src, ['ignore = [*self.disable, *self.block]'],
+              'disable+block list is no longer handed to create_from_ir', tokens={'disable', 'block', 'ignore'})
+    ign = X.names_assigned_from(cdi.node, 'self.disable', 'self.block')
+    (ctx.judge('R1', 'create_dependency_items:ignore-list passed') if any(
+        isinstance(k, ast.keyword) and k.arg == 'ignore' and isinstance(k.value, ast.Name) and k.value.id in ign for k in ast.walk(cdi.node)) else
      ctx.violation('R1', 'create_dependency_items:ignore-list', cdi.where, 'disable+block list is no longer handed to create_from_ir'))
 
     # ---- R2
